@@ -1,6 +1,7 @@
 import Chrono.Drv.Util
 import Chrono.Model.Round
 import Chrono.Model.RoundDT
+import Chrono.Model.RoundTz
 import Chrono.Spec.RoundSpec
 namespace Chrono.Drv.Round
 open Chrono Chrono.M Chrono.M.Round Chrono.Drv
@@ -53,6 +54,25 @@ def onZoned (op : Op) (args : List String) : String :=
     | .ok (.err e) => showErr e
   | _ => bad
 
+/-- value level, `DateTime<Tz>` in a zone with varying offset (`DateTime<Local>` under a `TZ` with
+daylight-saving rules): UTC reading, offset of the input, the offset the zone prescribes at the instant
+of the result (sent by the harness, which reads it from the zone itself), duration -/
+def onTz (op : Op) (args : List String) : String :=
+  match ints? args with
+  | some [y, s, f, o, ro, ds, dn] =>
+    match tz_duration (fun _ => ro) op ⟨⟨⟨y⟩, ⟨s, f⟩⟩, o⟩ ⟨ds, dn⟩ with
+    | .panic => "panic"
+    | .ok (.ok v) => s!"ok {showDT v.utc} {v.off}"
+    | .ok (.err e) => showErr e
+  | _ => bad
+
+def onTzSub (round : Bool) (args : List String) : String :=
+  match ints? args with
+  | some [y, s, f, o, ro, d] =>
+    showRes (fun z : Zoned => s!"{showDT z.utc} {z.off}")
+      (tz_subsecs (fun _ => ro) round ⟨⟨⟨y⟩, ⟨s, f⟩⟩, o⟩ d.toNat)
+  | _ => bad
+
 /-- value level, `SubsecRound`: `t` = NaiveTime `secs frac digits`, `n` = NaiveDateTime
 `yof secs frac digits`, `z` = DateTime<FixedOffset> `yof secs frac off digits` -/
 def onSub (round : Bool) (kind : String) (args : List String) : String :=
@@ -82,6 +102,11 @@ def handle (op : String) (args : List String) : Option String :=
   | "rd.z.trunc", a => some (onZoned .trunc a)
   | "rd.z.round", a => some (onZoned .round a)
   | "rd.z.up", a => some (onZoned .up a)
+  | "rd.l.trunc", a => some (onTz .trunc a)
+  | "rd.l.round", a => some (onTz .round a)
+  | "rd.l.up", a => some (onTz .up a)
+  | "rd.l.rsub", a => some (onTzSub true a)
+  | "rd.l.tsub", a => some (onTzSub false a)
   | "rd.t.rsub", a => some (onSub true "t" a)
   | "rd.t.tsub", a => some (onSub false "t" a)
   | "rd.n.rsub", a => some (onSub true "n" a)
